@@ -206,7 +206,6 @@ func copyToSelectedData[T any](remoteWrite bool, existingData []T, filterData *F
 			}
 
 			CopyNonNilDataFromItemToItem(newData, &existingData[i])
-			break
 		}
 	}
 	return existingData, success
